@@ -97,4 +97,30 @@ theorem readAll_print (cfg : Cfg) (F : AFile) (hwf : WFTopo cfg.lim F) (hacc : A
   simp only [RS.file, s4.verts, s4.edges, s4.faces, s4.cells, s4.props, List.nil_append]
   rfl
 
+theorem parse_of_readAll (cfg : Cfg) (input : Str) (st : RS) (h : readAll cfg input = st) (he : st.err = none) :
+    (parse cfg input).res = .ok st.file := by
+  unfold parse
+  simp only [h, he]
+
+theorem sortProps_noProps (F : AFile) (hp : F.props = []) : sortProps F = F := by
+  cases F
+  simp only at hp
+  simp [sortProps, sortedProps, propsOf, hp, Ent.all]
+
+theorem wfProps_nil (lim : Nat) (F : AFile) (hp : F.props = []) : WFProps lim F :=
+  ⟨fun p h => by rw [hp] at h; simp at h, by rw [hp]; exact List.Pairwise.nil⟩
+
+/-- `WFProp` from decidable pieces (for concrete files) -/
+theorem wfProp_of_dec (lim : Nat) (F : AFile) (p : PropRec) (h1 : p.ty ∈ regTypes)
+    (h2 : p.name.getLast? ≠ none ∧ p.name.getLast? ≠ some cQuote) (h3 : ∀ c ∈ p.name, c ≠ cNL)
+    (h4 : p.vals.length = F.count p.ent) (h5 : ∀ v ∈ p.vals, WFVal lim p.ty v)
+    (h6 : isPosKey p.ent p.ty p.name = true → p.vals = F.verts.map valOfPos) : WFProp lim F p := by
+  refine ⟨h1, ?_, h3, h4, h5, h6⟩
+  rcases List.eq_nil_or_concat p.name with h | ⟨init, z, h⟩
+  · rw [h] at h2; exact absurd rfl h2.1
+  · refine ⟨init, z, by simpa using h, ?_⟩
+    intro hz
+    apply h2.2
+    rw [h, hz]; simp
+
 end OVM.Ascii
